@@ -5,8 +5,8 @@ from checks.harness import meta
 
 PROPERTY = "C12"
 LEVEL = "proof"
-LEAN_MODULES = ["Exetera.Props.C12", "Exetera.Props.C12Copy", "Exetera.Props.C12Map", "Exetera.Props.C12Rest", "Exetera.Props.C12Legacy"]
-BASES = ["c03", "c04", "c16", "c05", "c18", "c12_copy"]
+LEAN_MODULES = ["Exetera.Props.C12", "Exetera.Props.C12Copy", "Exetera.Props.C12Map", "Exetera.Props.C12Rest", "Exetera.Props.C12Legacy", "Exetera.Witness.C12"]
+BASES = ["c03", "c04", "c16", "c05", "c18", "c12_copy", "c12_legacy"]
 MODES = {"quick": ["jit"], "thorough": ["jit", "nojit"], "search": ["jit"]}
 CASE_TIMEOUT = 15
 EXHAUSTIVE = {"quick": False, "thorough": False}
@@ -35,7 +35,12 @@ LEVEL_TEXT = ("Proof on the model's step semantics, per streamed driver, for eve
               "(7) read_file_using_fast_csv_reader: fuel >= records+2 gives the file's columns, under C05's two no-regrowth "
               "hypotheses only (csv_driver_terminates_partial); "
               "(8) the legacy driver generate_ordered_map_to_left_right_unique_streamed_old: `.ok` on every input within the model's "
-              "budgets |L|+|R| (main loop) and |L| (tail), every iteration advances i+j (legacy_join_streamed_terminates/_never_spins). "
+              "budgets |L|+|R| (main loop) and |L| (tail), every iteration advances i+j (legacy_join_streamed_terminates/_never_spins); "
+              "(9) the legacy mapper ordered_map_valid_stream_old WITH fix NC12a: on every input (any map, in range or not) an "
+              "error other than outOfFuel or `.ok` within |map|+|data|+1 iterations, every iteration consumes a map entry, moves to "
+              "the next data chunk or is the ValueError (legacy_map_stream_never_spins/_progress); in C19's regime it equals the "
+              "as-found model and returns the specified column (legacy_map_stream_terminates); as found it spins on a map entry "
+              ">= len(data) (Witness.C12.nc12a_legacy_map_stream_spins). "
               "Partial by nature: wall-clock time is not modelled; the step semantics is tied to the code by comparing "
               "kernel-invocation / write counts and by a watchdog.")
 LEVEL_NOTE = ("The drivers of (2)-(4) are the models of C04/C16 with the fuel of their driver loops turned into a parameter "
@@ -44,10 +49,11 @@ LEVEL_NOTE = ("The drivers of (2)-(4) are the models of C04/C16 with the fuel of
               "linear in the window the kernel is given) and finish within them as part of the same `.ok` statements. The indexed "
               "stream's bound is linear for a fixed run of the driver loops; the total work over a NON-monotone map (NC02a) can "
               "revisit a source window once per sub-chunk and is then bounded by the product |map|·min(cs,|source|), not stated "
-              "here. Not proved: CSV reading with regrowth of the staging buffers (_partial, owned by C05); the second legacy "
-              "driver ordered_map_valid_stream_old (model budget |map|+|data|+1; an out-of-range map entry >= len(data) would make "
-              "it re-call the partial kernel without progress — excluded by C19's in-range maps; watchdogged by the C19 "
-              "correspondence only). With chunksize = 0 (outside the property) "
+              "here. Not proved: CSV reading with regrowth of the staging buffers (_partial, owned by C05); NC12a (found by this check): "
+              "ordered_map_valid_stream_old spins on a map entry that is not a row of the source; repaired by "
+              "fixes/NC12a_map_valid_stream_old_unmapped_row.patch, the model of (9) is the code with that patch (Model/LegacyMapFix.lean), "
+              "the driver reports the as-found variant next to it, and the witness cases (fixes/NC12a_corpus_proposed.json) enter "
+              "corpus/C12 together with the patch. With chunksize = 0 (outside the property) "
               "element_chunked_copy spins — recorded as a fixpoint example next to chunked_copy_eq, not a finding. "
               "Trusted: Lean kernel; the hand-written driver models (validated by result and call-count correspondence); the "
               "watchdog (CASE_TIMEOUT seconds, retried with 4x budget) for what 'hang' means on the implementation.")
@@ -95,7 +101,7 @@ def check_spec(case, io, mode):
     if io.get("err") == "hang":
         return "did not finish within the watchdog budget (spins)"
     b = meta.base(case["_h"])
-    if case["_h"] == "c12_copy":
+    if case["_h"] in ("c12_copy", "c12_legacy"):
         why = b.check_spec(case, io, mode)
         if why:
             return why
@@ -103,6 +109,12 @@ def check_spec(case, io, mode):
     if bound and io.get("calls") is not None and io["calls"] > bound(case, io):
         return f"{io['calls']} kernel invocations exceed the linear bound {bound(case, io)}"
     return None
+
+
+def match_finding(case, io, mode):
+    b = meta.base(case["_h"])
+    fm = getattr(b, "match_finding", None) if case["_h"].startswith("c12_") else None
+    return fm(case, io, mode) if fm else None
 
 
 def select_for_mode(case, mode, tier):
